@@ -25,6 +25,8 @@ pub enum Item {
     /// an external pure function the unit calls (another crate): every function of the unit translated after this item
     /// takes it as an explicit parameter, so that theorems quantify over it: (last path segment, Rust fn-pointer type)
     Extern(&'static str, &'static str),
+    /// a type name standing for some `R: Read` (modelled as the list of chunks its reads deliver)
+    Reader(&'static str),
     /// a hand-written Lean definition emitted verbatim (a mirror of library / iterator plumbing): (what it mirrors, text)
     Mirror(&'static str, &'static str),
     /// a struct, with the fields that are kept (others are dropped: references back to owners, caches, ...)
@@ -36,6 +38,7 @@ impl Item {
         match self {
             Item::Fn(n) | Item::Const(n) | Item::Struct(n, _) => n.to_string(),
             Item::Mirror(n, _) => format!("mirror:{}", n),
+            Item::Reader(n) => format!("reader:{}", n),
             Item::Extern(n, _) => format!("extern:{}", n),
             Item::FnWithSig(f, n, ..) => format!("{}[as {}]", f, n),
             Item::Enum(n) => n.to_string(),
@@ -149,6 +152,19 @@ pub fn units() -> Vec<Unit> {
                 "line: &str, col: u32, span: u32",
                 "Option<&str>",
             )],
+            imports: vec![],
+        },
+        Unit {
+            module: "RsReader",
+            file: "decoder.rs",
+            fns: vec![
+                Item::Reader("R"),
+                Item::Enum("HeaderState"),
+                Item::Struct("StripHeaderReader", &["r", "header_state"]),
+                Item::Fn("is_junk_json"),
+                Item::Method("StripHeaderReader", "strip_head_read"),
+                Item::Method("StripHeaderReader", "read"),
+            ],
             imports: vec![],
         },
         Unit {
